@@ -92,20 +92,23 @@ func TestEnumerators(t *testing.T) {
 }
 
 func TestNumClasses(t *testing.T) {
-	for lit, want := range map[string][4]string{
-		"0":                          {"0", "none", "-", "none"},
-		"-12":                        {"1-18", "none", "-", "none"},
-		"9223372036854775807":        {"19", "none", "-", "none"},
-		"18446744073709551616e5":     {"20+", "none", "-", "0-22"},
-		"0.00000000000000000001":     {"0", "20+", "18+", "none"},
-		"1.000E-23":                  {"1-18", "1-17", "all", "23-1022"},
-		"1.5e+1023":                  {"1-18", "1-17", "0", "1023+"},
-		"1.012345678901234567e99999": {"1-18", "18-19", "1-17", "1023+"},
+	for lit, want := range map[string]numClass{
+		"0":                          {"0", "le18", "none", "-", "none", "none"},
+		"-12":                        {"1-18", "le18", "none", "-", "none", "none"},
+		"9223372036854775807":        {"19", "19", "none", "-", "none", "none"},
+		"18446744073709551616e5":     {"20+", "20+", "none", "-", "le22", "some"},
+		"0.00000000000000000001":     {"0", "le18", "18+", "18+", "none", "none"},
+		"1.000E-23":                  {"1-18", "le18", "1-17", "1-17", "23-308", "some"},
+		"1.5e+1023":                  {"1-18", "le18", "1-17", "0", "309+", "some"},
+		"1.012345678901234567e99999": {"1-18", "le18", "18+", "1-17", "309+", "some"},
 	} {
-		a, b, c, d := numClasses(lit)
-		if got := [4]string{a, b, c, d}; got != want {
+		if got := numClasses(lit); got != want {
 			t.Errorf("%s: %v want %v", lit, got, want)
 		}
+	}
+	if !hasEscapedPair(ue("D83D")+ue("DE00")) || !hasEscapedPair("a"+ue("DE00")+ue("dbff")+ue("dc00")) ||
+		hasEscapedPair(ue("DE00")+ue("D83D")) || hasEscapedPair("\x5c\x5cuD83D"+ue("DE00")) || hasEscapedPair(ue("D83D")+"a"+ue("DE00")) {
+		t.Errorf("hasEscapedPair wrong")
 	}
 }
 
@@ -152,7 +155,7 @@ func TestCompare(t *testing.T) {
 		{map[string]any{"A": int64(2), "b": []any{1.5, "x", nil, true, json.Number("1e400")}}, "wrong-string"},
 		{map[string]any{"a": int64(2), "c": 1, "b": []any{1.5, "x", nil, true, json.Number("1e400")}}, "extra-member"},
 		{map[string]any{"a": int64(2), "b": []any{1.5, "x", false, true, json.Number("1e400")}}, "wrong-type"},
-		{map[string]any{"a": int64(2), "b": []any{math.Nextafter(1.5, 2), "x", nil, true, json.Number("1e400")}}, "wrong-value:ulp"},
+		{map[string]any{"a": int64(2), "b": []any{math.Nextafter(1.5, 2), "x", nil, true, json.Number("1e400")}}, "wrong-value:inexact"},
 	}
 	for i, b := range bad {
 		if d := c.tree(ref, b.v); d == nil || d.kind != b.kind {
